@@ -50,7 +50,7 @@ def one(job):
         from openapi_python_client import utils
         for tag, coll in data.endpoint_collections_by_tag.items():
             for ep in coll.endpoints:
-                res["endpoints"].append({"tag": str(tag), "module": str(utils.PythonIdentifier(ep.name, config.field_prefix)), "relative": list(ep.relative_imports)})
+                res["endpoints"].append({"tag": str(tag), "module": str(utils.PythonIdentifier(ep.name, config.field_prefix)), "relative": list(ep.relative_imports), "n_bodies": len(ep.bodies)})
         if import_string_from_class is not None:
             classes = [m.class_info for m in seen_models] + [e.class_info for e in seen_enums]
             res["classes"] = [[str(ci.module_name), str(ci.name)] for ci in classes]
